@@ -802,7 +802,7 @@ def _desugar_factors_with_weights(design: List[Factor],
     weighted = []
     for f in design:
         if (not isinstance(f, DerivedFactor)) and (not isinstance(f, ContinuousFactor)) and any([l.weight > 1 for l in f.levels]):
-            if all([not f in c for c in crossings]):
+            if not crossings or not all([f in c for c in crossings]):
                 weighted.append(f)
     if not weighted:
         # No desugaring needed
